@@ -120,6 +120,7 @@ int main(int argc, char** argv) {
                     const std::string sh = cc["shape"].s();
                     if (sh == "tetra") m = shapes::tetrahedron();
                     else if (sh == "octa") { m = shapes::octahedron(); for (auto& x : m.pos) x *= 2; }
+                    else if (sh == "sphere") { m = shapes::sphere((int)cc["level"].i()); for (auto& x : m.pos) x *= 64; }      // a finely meshed bystander
                     else { auto d = cc["dims"].ivec(); m = shapes::box((int)d[0], (int)d[1], (int)d[2]); }
                     auto at = cc["at"].dvec();
                     for (size_t q = 0; q < m.nn(); q++) for (int a = 0; a < 3; a++) m.pos[3 * q + a] = u * (m.pos[3 * q + a] * cc["k"].d() + at[a]);
@@ -139,10 +140,17 @@ int main(int argc, char** argv) {
             // reference: the same narrow phase on every node-triangle pair of different cells (and the models' own node / face gates)
             open_model ref(params(lmin, cut, cut));
             long pairs = 0;
+            // (pairs of cells whose bounding boxes are farther apart than the cut-off cannot interact: skipped by the reference on the
+            //  strength of the node positions alone, so that tissues with 10^5 faces stay affordable)
+            auto box = [&](cell& c, double* lo, double* hi) { for (int a = 0; a < 3; a++) { lo[a] = 1e300; hi[a] = -1e300; } for (auto& n : cell_tester::nodes(c)) if (n.is_used()) { const double q[3] = {n.pos().dx(), n.pos().dy(), n.pos().dz()}; for (int a = 0; a < 3; a++) { lo[a] = std::min(lo[a], q[a]); hi[a] = std::max(hi[a], q[a]); } } };
             for (auto& c1 : Lref) for (auto& n : cell_tester::nodes(*c1)) {
                 if (!n.is_used()) continue;
                 for (auto& c2 : Lref) {
                     if (c1->get_id() == c2->get_id()) continue;
+                    { double l1[3], h1[3], l2[3], h2[3]; static std::map<std::pair<cell*, cell*>, bool> farmap; auto key = std::make_pair(c1.get(), c2.get());
+                      auto it = farmap.find(key);
+                      if (it == farmap.end()) { box(*c1, l1, h1); box(*c2, l2, h2); bool far = false; for (int a = 0; a < 3; a++) if (l1[a] > h2[a] + 2 * cut || l2[a] > h1[a] + 2 * cut) far = true; it = farmap.emplace(key, far).first; }
+                      if (it->second) continue; }
                     for (auto& f : cell_tester::faces(*c2)) {
                         if (!f.is_used()) continue;
 #if CONTACT_MODEL_INDEX == 1 || CONTACT_MODEL_INDEX == 2
